@@ -1,1 +1,372 @@
-//! (under construction)
+//! Three-valued (Kleene) evaluation + propagation search: a model enumerator for formulas too
+//! large for truth tables (DESIGN.md 2.5). Sound for arbitrary formulas of the supported fragment
+//! (unknown never prunes); fast on conjunctions of cardinality constraints.
+
+use crate::refsyn::{Ast, Cmp, Op};
+use std::collections::HashMap;
+
+#[derive(Debug, Clone)]
+pub enum F {
+    Const(bool),
+    Var(usize),
+    Not(Box<F>),
+    Bin(Op, Box<F>, Box<F>),
+    Ite(Box<F>, Box<F>, Box<F>),
+    CountConst(Cmp, Vec<F>, i128),
+    CountList(Cmp, Vec<F>, Vec<F>),
+}
+
+#[derive(Debug, Clone)]
+pub struct Problem {
+    pub names: Vec<String>,
+    pub index: HashMap<String, usize>,
+    /// the formula is the conjunction of these
+    pub conjuncts: Vec<F>,
+    /// variables of each conjunct
+    pub vars_of: Vec<Vec<usize>>,
+    /// conjuncts mentioning each variable
+    pub conj_of: Vec<Vec<usize>>,
+}
+
+fn compile_f(a: &Ast, index: &mut HashMap<String, usize>, names: &mut Vec<String>) -> Result<F, String> {
+    Ok(match a {
+        Ast::False => F::Const(false),
+        Ast::True => F::Const(true),
+        Ast::Var(v) => {
+            let i = *index.entry(v.clone()).or_insert_with(|| {
+                names.push(v.clone());
+                names.len() - 1
+            });
+            F::Var(i)
+        }
+        Ast::Not(f) => F::Not(Box::new(compile_f(f, index, names)?)),
+        Ast::Bin(op, l, r) => F::Bin(*op, Box::new(compile_f(l, index, names)?), Box::new(compile_f(r, index, names)?)),
+        Ast::Ite(c, t, e) => F::Ite(Box::new(compile_f(c, index, names)?), Box::new(compile_f(t, index, names)?), Box::new(compile_f(e, index, names)?)),
+        Ast::CountConst(cmp, xs, n) => F::CountConst(*cmp, xs.iter().map(|x| compile_f(x, index, names)).collect::<Result<_, _>>()?, *n as i128),
+        Ast::CountList(cmp, xs, ys) => F::CountList(*cmp, xs.iter().map(|x| compile_f(x, index, names)).collect::<Result<_, _>>()?, ys.iter().map(|x| compile_f(x, index, names)).collect::<Result<_, _>>()?),
+        Ast::Ref(_) => F::Const(false),
+        Ast::Quant(..) | Ast::Fix(..) => return Err("quantifiers / fixed points are outside the three-valued fragment".into()),
+    })
+}
+
+fn collect_vars(f: &F, out: &mut Vec<usize>) {
+    match f {
+        F::Const(_) => {}
+        F::Var(i) => {
+            if !out.contains(i) {
+                out.push(*i)
+            }
+        }
+        F::Not(g) => collect_vars(g, out),
+        F::Bin(_, a, b) => {
+            collect_vars(a, out);
+            collect_vars(b, out);
+        }
+        F::Ite(a, b, c) => {
+            collect_vars(a, out);
+            collect_vars(b, out);
+            collect_vars(c, out);
+        }
+        F::CountConst(_, xs, _) => xs.iter().for_each(|x| collect_vars(x, out)),
+        F::CountList(_, xs, ys) => xs.iter().chain(ys.iter()).for_each(|x| collect_vars(x, out)),
+    }
+}
+
+/// Flatten the top-level `And` chain (right-nested by the grammar) into conjuncts.
+pub fn compile(ast: &Ast) -> Result<Problem, String> {
+    let mut parts: Vec<&Ast> = Vec::new();
+    let mut cur = ast;
+    loop {
+        match cur {
+            Ast::Bin(Op::And, l, r) => {
+                // left side may itself be a conjunction in parentheses
+                let mut stack = vec![l.as_ref()];
+                while let Some(x) = stack.pop() {
+                    if let Ast::Bin(Op::And, a, b) = x {
+                        stack.push(b);
+                        stack.push(a);
+                    } else {
+                        parts.push(x);
+                    }
+                }
+                cur = r;
+            }
+            other => {
+                parts.push(other);
+                break;
+            }
+        }
+    }
+    let mut index = HashMap::new();
+    let mut names = Vec::new();
+    let mut conjuncts = Vec::new();
+    for p in parts {
+        conjuncts.push(compile_f(p, &mut index, &mut names)?);
+    }
+    let mut vars_of = Vec::new();
+    let mut conj_of = vec![Vec::new(); names.len()];
+    for (ci, c) in conjuncts.iter().enumerate() {
+        let mut v = Vec::new();
+        collect_vars(c, &mut v);
+        for x in &v {
+            conj_of[*x].push(ci);
+        }
+        vars_of.push(v);
+    }
+    Ok(Problem { names, index, conjuncts, vars_of, conj_of })
+}
+
+fn cmp_range(cmp: Cmp, lo_a: i128, hi_a: i128, lo_b: i128, hi_b: i128) -> Option<bool> {
+    // a in [lo_a, hi_a], b in [lo_b, hi_b]
+    match cmp {
+        Cmp::AtMost => {
+            if hi_a <= lo_b {
+                Some(true)
+            } else if lo_a > hi_b {
+                Some(false)
+            } else {
+                None
+            }
+        }
+        Cmp::LessThan => {
+            if hi_a < lo_b {
+                Some(true)
+            } else if lo_a >= hi_b {
+                Some(false)
+            } else {
+                None
+            }
+        }
+        Cmp::AtLeast => cmp_range(Cmp::AtMost, lo_b, hi_b, lo_a, hi_a),
+        Cmp::MoreThan => cmp_range(Cmp::LessThan, lo_b, hi_b, lo_a, hi_a),
+        Cmp::Exactly => {
+            if lo_a == hi_a && lo_b == hi_b && lo_a == lo_b {
+                Some(true)
+            } else if hi_a < lo_b || hi_b < lo_a {
+                Some(false)
+            } else {
+                None
+            }
+        }
+    }
+}
+
+pub fn eval3(f: &F, asg: &[Option<bool>]) -> Option<bool> {
+    match f {
+        F::Const(b) => Some(*b),
+        F::Var(i) => asg[*i],
+        F::Not(g) => eval3(g, asg).map(|b| !b),
+        F::Bin(op, a, b) => {
+            let (x, y) = (eval3(a, asg), eval3(b, asg));
+            let and = |x: Option<bool>, y: Option<bool>| match (x, y) {
+                (Some(false), _) | (_, Some(false)) => Some(false),
+                (Some(true), Some(true)) => Some(true),
+                _ => None,
+            };
+            let not = |x: Option<bool>| x.map(|b| !b);
+            let or = |x: Option<bool>, y: Option<bool>| not(and(not(x), not(y)));
+            match op {
+                Op::And => and(x, y),
+                Op::Or => or(x, y),
+                Op::Nor => not(or(x, y)),
+                Op::Nand => not(and(x, y)),
+                Op::Implies => or(not(x), y),
+                Op::ImpliesInv => or(not(y), x),
+                Op::Xor => match (x, y) {
+                    (Some(p), Some(q)) => Some(p != q),
+                    _ => None,
+                },
+                Op::Iff => match (x, y) {
+                    (Some(p), Some(q)) => Some(p == q),
+                    _ => None,
+                },
+            }
+        }
+        F::Ite(c, t, e) => match eval3(c, asg) {
+            Some(true) => eval3(t, asg),
+            Some(false) => eval3(e, asg),
+            None => match (eval3(t, asg), eval3(e, asg)) {
+                (Some(p), Some(q)) if p == q => Some(p),
+                _ => None,
+            },
+        },
+        F::CountConst(cmp, xs, n) => {
+            let (mut t, mut u) = (0i128, 0i128);
+            for x in xs {
+                match eval3(x, asg) {
+                    Some(true) => t += 1,
+                    None => u += 1,
+                    Some(false) => {}
+                }
+            }
+            cmp_range(*cmp, t, t + u, *n, *n)
+        }
+        F::CountList(cmp, xs, ys) => {
+            let count = |zs: &Vec<F>| {
+                let (mut t, mut u) = (0i128, 0i128);
+                for z in zs {
+                    match eval3(z, asg) {
+                        Some(true) => t += 1,
+                        None => u += 1,
+                        Some(false) => {}
+                    }
+                }
+                (t, t + u)
+            };
+            let (la, ha) = count(xs);
+            let (lb, hb) = count(ys);
+            cmp_range(*cmp, la, ha, lb, hb)
+        }
+    }
+}
+
+#[derive(Debug)]
+pub enum GiveUp {
+    NodeBudget,
+    TooManyModels,
+}
+
+pub struct Search<'a> {
+    p: &'a Problem,
+    asg: Vec<Option<bool>>,
+    trail: Vec<usize>,
+    pub nodes: u64,
+    max_nodes: u64,
+    max_models: usize,
+    pub models: Vec<Vec<Option<bool>>>,
+}
+
+impl<'a> Search<'a> {
+    pub fn new(p: &'a Problem, max_models: usize, max_nodes: u64) -> Search<'a> {
+        Search { p, asg: vec![None; p.names.len()], trail: Vec::new(), nodes: 0, max_nodes, max_models, models: Vec::new() }
+    }
+
+    fn assign(&mut self, v: usize, b: bool) {
+        self.asg[v] = Some(b);
+        self.trail.push(v);
+    }
+
+    fn undo_to(&mut self, mark: usize) {
+        while self.trail.len() > mark {
+            let v = self.trail.pop().unwrap();
+            self.asg[v] = None;
+        }
+    }
+
+    /// returns false on conflict
+    fn propagate(&mut self, mut queue: Vec<usize>) -> bool {
+        while let Some(ci) = queue.pop() {
+            match eval3(&self.p.conjuncts[ci], &self.asg) {
+                Some(false) => return false,
+                Some(true) => continue,
+                None => {}
+            }
+            let vars: Vec<usize> = self.p.vars_of[ci].iter().filter(|v| self.asg[**v].is_none()).cloned().collect();
+            for v in vars {
+                if self.asg[v].is_some() {
+                    continue;
+                }
+                self.asg[v] = Some(false);
+                let f_bad = eval3(&self.p.conjuncts[ci], &self.asg) == Some(false);
+                self.asg[v] = Some(true);
+                let t_bad = eval3(&self.p.conjuncts[ci], &self.asg) == Some(false);
+                self.asg[v] = None;
+                if f_bad && t_bad {
+                    return false;
+                }
+                if f_bad || t_bad {
+                    self.assign(v, f_bad);
+                    for c2 in &self.p.conj_of[v] {
+                        queue.push(*c2);
+                    }
+                }
+            }
+        }
+        true
+    }
+
+    fn dfs(&mut self) -> Result<(), GiveUp> {
+        self.nodes += 1;
+        if self.nodes > self.max_nodes {
+            return Err(GiveUp::NodeBudget);
+        }
+        // choose a variable from the undecided conjunct with the fewest unassigned variables
+        let mut best: Option<(usize, usize)> = None;
+        for (ci, c) in self.p.conjuncts.iter().enumerate() {
+            match eval3(c, &self.asg) {
+                Some(false) => return Ok(()),
+                Some(true) => {}
+                None => {
+                    let free = self.p.vars_of[ci].iter().filter(|v| self.asg[**v].is_none()).count();
+                    if free > 0 && best.map(|b| free < b.1).unwrap_or(true) {
+                        best = Some((ci, free));
+                    }
+                }
+            }
+        }
+        let Some((ci, _)) = best else {
+            // every conjunct is definitely true: unassigned variables are free
+            if self.models.len() >= self.max_models {
+                return Err(GiveUp::TooManyModels);
+            }
+            self.models.push(self.asg.clone());
+            return Ok(());
+        };
+        let v = *self.p.vars_of[ci].iter().find(|v| self.asg[**v].is_none()).unwrap();
+        for b in [true, false] {
+            let mark = self.trail.len();
+            self.assign(v, b);
+            if self.propagate(self.p.conj_of[v].clone()) {
+                self.dfs()?;
+            }
+            self.undo_to(mark);
+        }
+        Ok(())
+    }
+
+    /// enumerate all models (partial assignments; None = free variable)
+    pub fn run(mut self) -> Result<(Vec<Vec<Option<bool>>>, u64), GiveUp> {
+        let all: Vec<usize> = (0..self.p.conjuncts.len()).collect();
+        if self.propagate(all) {
+            self.dfs()?;
+        }
+        Ok((self.models, self.nodes))
+    }
+}
+
+/// Three-valued value of the whole conjunction under a partial assignment given by name;
+/// only conjuncts touching an assigned variable are inspected unless `full` is set.
+pub fn probe(p: &Problem, assigned: &[(usize, bool)], full: bool) -> Option<bool> {
+    let mut asg = vec![None; p.names.len()];
+    for (v, b) in assigned {
+        asg[*v] = Some(*b);
+    }
+    let mut all_true = true;
+    let conjs: Vec<usize> = if full {
+        (0..p.conjuncts.len()).collect()
+    } else {
+        let mut c: Vec<usize> = assigned.iter().flat_map(|(v, _)| p.conj_of[*v].iter().cloned()).collect();
+        c.sort();
+        c.dedup();
+        all_true = false; // untouched conjuncts are unknown
+        c
+    };
+    for ci in conjs {
+        match eval3(&p.conjuncts[ci], &asg) {
+            Some(false) => return Some(false),
+            Some(true) => {}
+            None => all_true = false,
+        }
+    }
+    if all_true {
+        Some(true)
+    } else {
+        None
+    }
+}
+
+/// Value under a TOTAL assignment (every variable known).
+pub fn eval_total(p: &Problem, asg: &[bool]) -> bool {
+    let a: Vec<Option<bool>> = asg.iter().map(|b| Some(*b)).collect();
+    p.conjuncts.iter().all(|c| eval3(c, &a) == Some(true))
+}
